@@ -40,6 +40,21 @@ fn gen_history(r: &mut Rng, cfg: &SysCfg, ntypes: u64, len: usize, crashes: bool
     ops
 }
 
+fn witnesses() -> Vec<(SysCfg, u64, Vec<Op>)> {
+    let c4 = SysCfg { event_per_zone: 2, fill_factor: 2, ..Default::default() };
+    let c2 = SysCfg { event_per_zone: 1, fill_factor: 2, ..Default::default() };
+    let s = |k: u64| Op::S { k, ctx: 0, ty: 0 };
+    vec![
+        // C01-wal-segment-id-skew: manual FLUSH advances the segment id but not the WAL id; its
+        // cleanup unlinks the open WAL file; the next acknowledged STORE is lost by a crash
+        (c4.clone(), 1, vec![s(1), s(2), s(3), Op::F, s(4), Op::R, Op::X, Op::R, Op::Ls]),
+        // the same through a clean restart: D, then a full buffer, then a store, then a crash
+        (c2.clone(), 1, vec![s(1), Op::D, s(2), s(3), Op::Run, s(4), Op::R, Op::X, Op::R, Op::Ls]),
+        // C01-wal-replay-duplicates: crash after publication, before WAL cleanup
+        (c2.clone(), 1, vec![s(1), s(2), Op::Adv, Op::Adv, Op::Adv, Op::X, Op::R, Op::Ls]),
+    ]
+}
+
 fn main() {
     sys::maybe_child();
     let a = parse_args();
@@ -51,19 +66,27 @@ fn main() {
         }
     };
     let mut st = Stream::create(&a.out, &a.stream);
-    for i in 0..a.cases {
+    let wits = witnesses();
+    let nw = wits.len() as u64;
+    for i in 0..(a.cases + nw) {
         if a.only.is_some_and(|o| o != i) {
             continue;
         }
-        let mut r = Rng::for_case(a.seed, &a.stream, i);
-        let cfg = SysCfg {
-            event_per_zone: 1 + r.below(3) as usize,
-            fill_factor: 1 + r.below(3) as usize,
-            ..Default::default()
+        let (cfg, ntypes, ops) = if i < nw {
+            st.tally("witness_histories");
+            wits[i as usize].clone()
+        } else {
+            let mut r = Rng::for_case(a.seed, &a.stream, i - nw);
+            let cfg = SysCfg {
+                event_per_zone: 1 + r.below(3) as usize,
+                fill_factor: 1 + r.below(3) as usize,
+                ..Default::default()
+            };
+            let ntypes = if r.chance(7, 10) { 1 } else { 2 };
+            let len = 8 + r.below(30) as usize;
+            let ops = gen_history(&mut r, &cfg, ntypes, len, crashes);
+            (cfg, ntypes, ops)
         };
-        let ntypes = if r.chance(7, 10) { 1 } else { 2 };
-        let len = 8 + r.below(30) as usize;
-        let ops = gen_history(&mut r, &cfg, ntypes, len, crashes);
         let root = a.out.join(format!("{}-{i}", a.stream));
         let _ = std::fs::remove_dir_all(&root);
         let mut ex = Exec::start(&root, &cfg, ntypes);
